@@ -1141,6 +1141,14 @@ def str_method(interp, s, name, args, kwargs):
                     interp.ctx.axioms.append(tm.mk_implies(tm.T('str.contains', (r, tm.const(ch)), tm.BOOL),
                                                            tm.T('str.contains', (t, tm.const(ch)), tm.BOOL)))
         return SStr(r)
+    if name == 'find' and len(args) == 2 and is_intlike(args[1]):
+        # s.find(sub, start): Python clamps start like a slice bound; beyond the end nothing is found (not even '')
+        n = tm.mk_len(t)
+        k = int_term(args[1])
+        k0 = k if (k.is_const and k.val >= 0) else tm.mk_ite(tm.mk_lt(k, tm.const(0)),
+                                                               tm.mk_ite(tm.mk_lt(tm.mk_add(k, n), tm.const(0)), tm.const(0), tm.mk_add(k, n)), k)
+        r = tm.T('str.indexof', (t, str_term(interp, args[0]), k0), tm.INT)
+        return SInt(tm.mk_ite(tm.mk_lt(n, k0), tm.const(-1), r))
     if name == 'find' and len(args) == 1:
         a = str_term(interp, args[0])
         r = tm.T('str.indexof', (t, a, tm.const(0)), tm.INT)
